@@ -61,6 +61,13 @@ def check_c11(case):
         return Verdict(False, "the parent waits for a message although every worker has finished and everything sent was delivered (it would block forever) [k=%d split_var=%d delivery=%s]" % (mp["k"], mp["split_var"], t.order), True, tags)
     nworkers = len(solvers)
     nt = False
+    if t is not None and t.live_messages():
+        w, i = t.live_messages()[0]
+        return Verdict(False, "message %d of worker %d carries the worker's live statistics array, modified after the put(): what the parent receives depends on when the queue pickles it [k=%d]" % (i, w, mp["k"]), True, tags)
+    if t is not None and op[0] not in ("min", "max"):
+        bad = partial_statistics(pc, cfg, mp, case.get("order"))
+        if bad:
+            return Verdict(False, bad, True, tags)
     if t is not None:
         with_sol = sum(1 for s_ in t.streams if len(s_) > 1)
         nt = nworkers >= 2 and with_sol >= 2 and t.order != sorted(t.order)
@@ -101,6 +108,38 @@ def check_c11(case):
         if op[0] not in ("min", "max") and total["SOLVER_SOLUTION_NB"] != len(sols):
             return Verdict(False, "aggregated SOLVER_SOLUTION_NB = %d but %d solutions were delivered %s" % (total["SOLVER_SOLUTION_NB"], len(sols), where), nt, tags)
     return Verdict(True, "", nt, tags)
+
+
+def partial_statistics(pc, cfg, mp, order, taken=(1, 2)):
+    """Partial enumeration: after j solutions have been delivered, get_statistics() answers and counts j solutions."""
+    from vlib import mpfake
+
+    for j in taken:
+        solvers = engine(mpfake.split_solvers, pc, mp["k"], mp["split_var"], cfg, order)
+        try:
+            with mpfake.patched(len(solvers), mp.get("schedule", [])) as t:
+                ms = mpfake.MultiprocessingSolver(solvers, log_level="CRITICAL")
+                it = ms.solve()
+                got = 0
+                for _ in range(j):
+                    if engine(lambda: next(it, None)) is None:
+                        break
+                    got += 1
+                if got < j:
+                    return None
+                try:
+                    total = engine(ms.get_statistics)
+                except EngineError as e:
+                    return "get_statistics() raised %s after %d solution(s) of a multiprocessing enumeration had been delivered [k=%d]" % (e.bucket, got, mp["k"])
+                if total["SOLVER_SOLUTION_NB"] != got:
+                    return "after %d delivered solution(s) of a multiprocessing enumeration SOLVER_SOLUTION_NB = %d [k=%d delivery=%s]" % (got, total["SOLVER_SOLUTION_NB"], mp["k"], t.order)
+        except (BudgetExceeded, EngineError):
+            return None
+        except BaseException as e:
+            if type(e).__name__ != "FakeDeadlock":
+                raise
+            return None
+    return None
 
 
 @st.composite
